@@ -23,7 +23,7 @@ def good_value(rng, p):
         if "callback" in name:
             return "harness.wmod.cb"
         return rng.choice(["harness.wmod.w", "harness.wmod.w", "harness.wmod.loud", "harness.wmod.notcoro", "harness.wmod.boom",
-                           "harness.wmod.cur", "harness.wmod.cur", "harness.wmod.loud"])
+                           "harness.wmod.cur", "harness.wmod.cur", "harness.wmod.loud", "harness.pkgx.deep.w3"])
     if conv == "literal":
         if name == "args":
             return rng.choice(["(1,)", "(1,2)", "()", "[5]"])
